@@ -62,6 +62,11 @@ misc2)  # (as run: the second half of misc with smaller batches, after the machi
   m $J2 1 1123 10 702 C18                 # j2119
   m $TD 743 879 12 203 C15                # handle_sfn_response (batch 203 again: its first run was discarded)
   ;;
+td2)    # (as run: the last two td batches, smaller; then the re-runs of the C06 / C03 kills of batches 201, 202, 204, 205
+        # that were made while a scenario just added to the shared corpus still failed on the unchanged tree — see MUTATION.md)
+  m $TD 1281 1520 14 206 C03 C19 C08 C15  # rpcmessage
+  m $TD 1521 1892 14 207 C15 C17          # states:startExecution
+  ;;
 api2)   # (as run: api with smaller batches)
   m $RA 117 175 8 801 C17 C10             # validators
   m $RA 282 842 20 802 C10                # Create/List/Describe/Update/Delete
